@@ -568,6 +568,29 @@ def r7(ctx):
     ctx.emit('C11-R7', okp, COUNTTABLE, f, 'hits are the ;-separated XA entries, the contig their first field', key='xa-filter-parsing', nontrivial=False)
 
 
+@rule('C11', 'C11-R8', 'read_should_be_counted is THE filter: once it accepted a read, assignReads does not leave early on another test of the read (a read whose bin '
+                       'coordinate is a read attribute or an aliased tag rather than a literal tag would silently never be counted)')
+def r8(ctx):
+    g = ctx.fn(COUNTTABLE, AR)
+    rets = [r for r in walk_no_nested(g) if isinstance(r, ast.Return) and r is not g.body[-1]]
+    n = 0
+    bad = []
+    for r in rets:
+        for t_, pol in (reach_conds(g.body, r) or []):
+            n += 1
+            calls = [c for c in ast.walk(t_) if isinstance(c, ast.Call) and (dotted(c.func) or '').endswith('read_should_be_counted')]
+            if calls:
+                continue
+            if 'read' in names_in(t_):
+                bad.append((r, t_, pol))
+    ctx.need('C11-R8', len(rets), 1, 'early returns of assignReads')
+    for r, t_, pol in bad[:2]:
+        ctx.emit('C11-R8', False, COUNTTABLE, r, f'{AR} returns early when `{"" if pol else "not "}{src(t_)}`: a second, undocumented filter on the read after read_should_be_counted accepted it',
+                 key='no-filter-after-acceptance', what=f'{AR}: extra read filter `{src(t_)[:60]}` outside read_should_be_counted')
+    if not bad:
+        ctx.emit('C11-R8', True, COUNTTABLE, g, f'{len(rets)} early return(s) of {AR}: only the verdict of read_should_be_counted leaves early', key='no-filter-after-acceptance')
+
+
 META = {
     'text': ('Decides: every filter option of the parser is consulted by read_should_be_counted and can only reject (single trailing return True); '
              'each filter test equals its documented predicate on every case (mate selection, MAPQ <, proper pairs, indels, soft clips, edit distance '
